@@ -100,6 +100,7 @@ def _case(draw, tier):
     # psth uses the edges of the first train: bin not larger than that recording
     c["bin"] = (trains[0]["e1"] - trains[0]["e0"]) / q / draw(st.sampled_from([1, 2, 4]))
     c["compiled"] = draw(st.booleans())
+    c["ctor_unsorted"] = draw(st.sampled_from([False, False, True]))
     # an averaging interval inside the COMMON recording (it may well reach beyond the
     # own edges of some of the messy trains), for the list forms of the scalar measures
     if draw(st.booleans()):
@@ -252,6 +253,10 @@ def run_case(case, ctx):
     ctx.set_backend(case["compiled"])
 
     def messy():
+        if case.get("ctor_unsorted"):
+            # the way the text loader builds trains: is_sorted=False, the constructor sorts
+            return [pyspike.SpikeTrain(np.array(m["spikes"], dtype=float), list(m["edges"]),
+                                       is_sorted=False) for m in case["messy"]]
         return [pyspike.SpikeTrain(np.array(m["spikes"], dtype=float), list(m["edges"]))
                 for m in case["messy"]]
     t0, t1, exp = _expected(case)
@@ -285,6 +290,31 @@ def run_case(case, ctx):
     # a spike beyond the edge (within the granted tolerance) is kept by the
     # reconciliation - that much the statement says and the first block has judged; what
     # a measure makes of a spike outside its recording is not defined
+    # ---- the caller goes on working with the reconciled trains: crops the recording of
+    # all of them (edges narrowed in place), later swaps two spike times in place - and
+    # reconciles again each time
+    if t1 > t0:
+        mid = t0 + (t1 - t0) / 2
+        for r in rec:
+            r.t_end = mid
+        rec3 = ctx.call("reconcile_after_crop", reconcile_spike_trains, rec)
+        exp3 = [[v for v in e if t0 - 1e-6 < v < mid + 1e-6] for e in exp]
+        for k, (r, e) in enumerate(zip(rec3, exp3)):
+            ctx.check(r.t_start == t0 and r.t_end == mid and [float(v) for v in r.spikes] == e,
+                      "reconcile:after_in_place_crop",
+                      lambda: "train %d reconciled, then t_end set to %r in place, reconciled "
+                              "again: %r on [%r,%r], expected %r"
+                      % (k, mid, list(r.spikes), r.t_start, r.t_end, e))
+        for k, r in enumerate(rec3):
+            if len(r.spikes) >= 2 and isinstance(r.spikes, np.ndarray):
+                r.spikes[0], r.spikes[-1] = r.spikes[-1], r.spikes[0]
+        rec4 = ctx.call("reconcile_after_swap", reconcile_spike_trains, rec3)
+        for k, (r, e) in enumerate(zip(rec4, exp3)):
+            ctx.check([float(v) for v in r.spikes] == e, "reconcile:after_in_place_swap",
+                      lambda: "train %d: first and last spike swapped in place after a "
+                              "reconciliation, reconciled again: %r expected %r"
+                      % (k, list(r.spikes), e))
+
     near_out = "spike_outside_within_tolerance" in classify(case)
     # ---- every measure entry point, three ways
     for name, kind, fn, keys in entry_points():
